@@ -1077,8 +1077,8 @@ func edgeKnownNonNil(b *ssa.BasicBlock, i int, v ssa.Value) bool {
 // path and refuses edges that contradict an earlier outcome of the same (structurally equal) test.
 
 type pathOpts struct {
-	Discharge func(in ssa.Instruction) bool      // path is fine once it passes such an instruction
-	Bad       func(in ssa.Instruction) bool      // reaching such an instruction undischarged is a violation (default: any Return)
+	Discharge func(in ssa.Instruction) bool       // path is fine once it passes such an instruction
+	Bad       func(in ssa.Instruction) bool       // reaching such an instruction undischarged is a violation (default: any Return)
 	EdgeOK    func(b *ssa.BasicBlock, i int) bool // false prunes the edge (e.g. "nothing to dispose on this edge")
 	BadReturn func(ret *ssa.Return, pred *ssa.BasicBlock) bool
 }
